@@ -52,7 +52,7 @@ type scenario struct {
 	hs      []*handover
 
 	vsDefault   settings        // VerifSettings right after GetInstance
-	earlyGuard  bool            // queue: all records were put within less than the wait time ⇒ no idle flush between records is possible
+	earlyGuard  bool            // queue: the last record left the queue less than the wait time after the sender was created ⇒ no idle-timeout flush can separate two records
 	notAccepted map[string]bool // capacity scenarios: records the full queue must have refused
 	Desc        map[string]interface{}
 }
